@@ -1,4 +1,4 @@
-(* Props/C02Reparse.v - property C02 (text level): the re-parse specification rr (Reparse.v, validated per run by correspondence stage 8) composed with the specified builder, the title refresh and the projector: one more pass computed block by block for every tree; block-level fixpoint on settled notes, byte-level fixpoint whenever every line is written the same again (in particular when note links carry no .md and the current title); witnesses for two clauses of reparse_safe
+(* Props/C02Reparse.v - property C02 (text level): the re-parse specification rr (Reparse.v, validated per run by correspondence stage 8) composed with the specified builder, the title refresh and the projector: one more pass computed block by block for every tree; block-level fixpoint on settled notes, byte-level fixpoint whenever every line is written the same again (in particular when note links carry no .md and the current title); a witness for the heading-depth clause of reparse_safe; what a list written tight cannot hold (the former tight-item clauses) and the repaired F-TIGHTTAIL witnesses
    Only statements, each closed by an `exact`, pinned by a `Check`, followed by `Print Assumptions`. *)
 From Coq Require Import ZArith Permutation List.
 From IweV Require Import Str Text Ast RelPath Arena Project SectionsSpec Check_Norm NormFacts SectionsFacts HistoryText Reparse ReparseFacts ReparseText ReparseCalm.
@@ -157,20 +157,59 @@ Check C02_reparse_depth7_refuted :
          rr ex_opts depth7_written <> depth7_observed.
 Print Assumptions C02_reparse_depth7_refuted.
 
-Theorem C02_reparse_tight_rule_refuted :
+(* since the repair of F-TIGHTTAIL (GraphBlock::is_sparce_list, Project.is_sparse): in a list written tight no item holds a rule or a table right under text nor two quotes in a row - the two clauses reparse_safe used to carry for tight items are theorems about the writer *)
+Theorem C02_tight_list_calm :
+  forall (its : list (list gblock)) (it : list gblock),
+         is_sparse its = false ->
+         In it its ->
+         in_a_row has_text is_grule_or_table it = false /\
+         in_a_row is_gquote is_gquote it = false /\ length (filter is_paragraph it) <= 1.
+Proof. exact ReparseFacts.tight_list_calm. Qed.
+Check C02_tight_list_calm :
+  forall (its : list (list gblock)) (it : list gblock),
+         is_sparse its = false ->
+         In it its ->
+         in_a_row has_text is_grule_or_table it = false /\
+         in_a_row is_gquote is_gquote it = false /\ length (filter is_paragraph it) <= 1.
+Print Assumptions C02_tight_list_calm.
+
+(* the witness of F-TIGHTTAIL (as found written tight, the rule a setext underline to pulldown, outside reparse_safe): written sparse, in the class, re-read as written, a fixpoint *)
+Theorem C02_reparse_tight_rule_repaired :
   fst (blocks_md ex_opts LFS [] tightrule_written) =
-         "- a" +++ LFS +++ "  " +++ srepeat "-" 72 +++ LFS /\
-         reparse_safe ex_opts tightrule_written = false /\
-         reparse_safe ex_opts [GBList [[GPara [Str "a"]; GPara [Str "b"]; GRule]]] = true /\
-         rr ex_opts tightrule_written <> tightrule_observed.
-Proof. exact ReparseFacts.reparse_tight_rule_refuted. Qed.
-Check C02_reparse_tight_rule_refuted :
+         "- a" +++ LFS +++ LFS +++ "  " +++ srepeat "-" 72 +++ LFS /\
+         reparse_safe ex_opts tightrule_written = true /\
+         rr ex_opts tightrule_written = tightrule_observed /\
+         project "" (tmap (norm_node ex_ctx) (spec_tree "a" (rr ex_opts tightrule_written))) =
+         tightrule_written.
+Proof. exact ReparseFacts.reparse_tight_rule_repaired. Qed.
+Check C02_reparse_tight_rule_repaired :
   fst (blocks_md ex_opts LFS [] tightrule_written) =
-         "- a" +++ LFS +++ "  " +++ srepeat "-" 72 +++ LFS /\
-         reparse_safe ex_opts tightrule_written = false /\
-         reparse_safe ex_opts [GBList [[GPara [Str "a"]; GPara [Str "b"]; GRule]]] = true /\
-         rr ex_opts tightrule_written <> tightrule_observed.
-Print Assumptions C02_reparse_tight_rule_refuted.
+         "- a" +++ LFS +++ LFS +++ "  " +++ srepeat "-" 72 +++ LFS /\
+         reparse_safe ex_opts tightrule_written = true /\
+         rr ex_opts tightrule_written = tightrule_observed /\
+         project "" (tmap (norm_node ex_ctx) (spec_tree "a" (rr ex_opts tightrule_written))) =
+         tightrule_written.
+Print Assumptions C02_reparse_tight_rule_repaired.
+
+(* two quotes in a row in an item are written with a blank line between them and re-read as two quotes *)
+Theorem C02_reparse_tight_quotes_repaired :
+  fst (blocks_md ex_opts LFS [] tightquotes_written) =
+         "- a" +++ LFS +++ LFS +++ "  > b" +++ LFS +++ LFS +++ "  > c" +++ LFS /\
+         reparse_safe ex_opts tightquotes_written = true /\
+         rr ex_opts tightquotes_written =
+         [DBList
+            [[DPara (0, 1) [Str "a"]; DQuote (2, 3) [DPara (2, 3) [Str "b"]];
+              DQuote (4, 5) [DPara (4, 5) [Str "c"]]]]].
+Proof. exact ReparseFacts.reparse_tight_quotes_repaired. Qed.
+Check C02_reparse_tight_quotes_repaired :
+  fst (blocks_md ex_opts LFS [] tightquotes_written) =
+         "- a" +++ LFS +++ LFS +++ "  > b" +++ LFS +++ LFS +++ "  > c" +++ LFS /\
+         reparse_safe ex_opts tightquotes_written = true /\
+         rr ex_opts tightquotes_written =
+         [DBList
+            [[DPara (0, 1) [Str "a"]; DQuote (2, 3) [DPara (2, 3) [Str "b"]];
+              DQuote (4, 5) [DPara (4, 5) [Str "c"]]]]].
+Print Assumptions C02_reparse_tight_quotes_repaired.
 
 (* the hypotheses are satisfiable by a note with nested lists, a quote, code blocks, a rule, an inline
    note link and block references (ReparseFacts.ex_blocks; its text is ReparseFacts.ex_written_text) *)
